@@ -15,7 +15,7 @@ def selftest(tier):
 
 
 def obligations(tier, seed):
-    t = 900 if tier == 'quick' else 2400
+    t = 450 if tier == 'quick' else 2400
     names = 'ABCP'
     sh1 = []
     for i, pre in enumerate(plan(skeletons.TEMPLATES, tier, seed + 2, 8, names=names, lengths_thorough=(3,),
